@@ -34,6 +34,7 @@
 #include <xalanc/XalanTransformer/XalanCompiledStylesheet.hpp>
 #include <xalanc/XalanTransformer/XalanParsedSource.hpp>
 #include <xalanc/XalanTransformer/XercesDOMWrapperParsedSource.hpp>
+#include <xalanc/XalanTransformer/XercesDOMParsedSource.hpp>
 #include <xalanc/XercesParserLiaison/XercesParserLiaison.hpp>
 #include <xalanc/XercesParserLiaison/XercesDOMSupport.hpp>
 #include <xalanc/XSLT/XSLTInputSource.hpp>
@@ -535,6 +536,20 @@ static int g_T = 2, g_reps = 1;
 static XalanTransformer* g_threadTransformers[rt::MAXT];
 static MemResolver* g_resolvers[rt::MAXT];
 static const XalanCompiledStylesheet* g_stylesheet = 0;
+
+// a parsed source around a wrapper the caller made himself with XercesParserLiaison::createDocument(doc, threadSafe, buildWrapper, buildMaps)
+class OwnWrapperSource : public XalanParsedSource
+{
+public:
+    OwnWrapperSource(XalanDocument* d, MemoryManager& m) : m_document(d), m_uri("file:///vmem/doc.xml", m) {}
+    virtual XalanDocument* getDocument() const { return m_document; }
+    virtual XalanParsedSourceHelper* createHelper(MemoryManager& m) const { return XercesDOMParsedSourceHelper::create(m); }
+    virtual const XalanDOMString& getURI() const { return m_uri; }
+private:
+    XalanDocument* const m_document;
+    const XalanDOMString m_uri;
+};
+
 static const XalanParsedSource* g_source = 0;
 static std::string g_expected;
 static bool g_haveExpected = false;
@@ -719,6 +734,17 @@ int main(int argc, char** argv)
         {
             // parseSource(..., useXercesDOM=true): the liaison's default is NOT thread safe (outside the property's quantifier; positive control)
             if (owner.parseSource(srcIn, g_source, true) != 0) { printf("setup-error parse %s\n", owner.getLastError()); return 2; }
+        }
+        else if (srckind == "xt")
+        {
+            // the caller wraps the DOM himself and asks for a thread-safe wrapper WITHOUT asking for the nodes to be built up front:
+            // thread safety implies that they are (XercesDocumentWrapper: "threadSafe ... buildWrapper is forced")
+            parser = new xercesc::XercesDOMParser;
+            parser->setDoNamespaces(true);
+            xercesc::MemBufInputSource mb((const XMLByte*)src.data(), src.size(), "file:///vmem/doc.xml", false);
+            parser->parse(mb);
+            liaison = new XercesParserLiaison(*arena);
+            g_source = new OwnWrapperSource(liaison->createDocument(parser->getDocument(), true, false, true), *arena);
         }
         else
         {
